@@ -5,6 +5,8 @@ package main
 import (
 	"fmt"
 	"go/types"
+	"os"
+	"strconv"
 	"strings"
 
 	"golang.org/x/tools/go/ssa"
@@ -252,6 +254,21 @@ func registerVerif(p *Program) {
 	p.reg("verif:verifImplies", func(e *Exec, g *G, a []Value) Value { return e.tc.Implies(a[0].(*Term), a[1].(*Term)) })
 	p.reg("verif:verifIteInt", func(e *Exec, g *G, a []Value) Value { return e.tc.Ite(a[0].(*Term), a[1].(*Term), a[2].(*Term)) })
 	p.reg("verif:verifRepeat", func(e *Exec, g *G, a []Value) Value { return e.tc.Const(64, 1) })
+	p.reg("verif:verifRecord", func(e *Exec, g *G, a []Value) Value {
+		t := a[1].(*Term)
+		if !t.IsConst() {
+			panic(unsupported{"verifRecord of a symbolic value"})
+		}
+		e.records = append(e.records, fmt.Sprintf("%s=%d", strArg(a[0]), t.Val))
+		return nil
+	})
+	p.reg("verif:verifSeed", func(e *Exec, g *G, a []Value) Value {
+		v, _ := strconv.ParseUint(os.Getenv("VERIF_SEED"), 10, 64)
+		return e.tc.Const(64, v)
+	})
+	p.reg("verif:verifIPTextLen", func(e *Exec, g *G, a []Value) Value {
+		return e.ipTextLen(e.sliceTerms(a[0].(SliceV)))
+	})
 	p.reg("verif:verifYield", func(e *Exec, g *G, a []Value) Value { return nil })
 	p.reg("verif:verifTime", func(e *Exec, g *G, a []Value) Value { return e.timeVal(a[0].(*Term)) })
 	p.reg("verif:verifEqNanos", func(e *Exec, g *G, a []Value) Value { return e.tc.Eq(a[0].(*Term), a[1].(*Term)) })
